@@ -2,7 +2,7 @@
 
 use super::collect_pair;
 use crate::{Error, ErrorKind, InstructionFrame, KIteratorOutput as Output, Result, prelude::*};
-use std::{collections::VecDeque, mem::take, result::Result as StdResult};
+use std::{collections::VecDeque, result::Result as StdResult};
 use thiserror::Error;
 
 /// An iterator that links the output of two iterators together in a chained sequence
@@ -767,9 +767,14 @@ impl KotoIterator for Skip {
 
     fn next_back(&mut self) -> Option<Output> {
         // Ensure the forward output has been skipped before yielding output from the back
-        if self.remaining > 0 {
-            self.iter.nth(self.remaining - 1);
-            self.remaining = 0;
+        while self.remaining > 0 {
+            self.remaining -= 1;
+            match self.iter.next() {
+                // An error thrown while producing a skipped value still has to be reported
+                Some(error @ Output::Error(_)) => return Some(error),
+                Some(_) => {}
+                None => break,
+            }
         }
 
         self.iter.next_back()
@@ -780,11 +785,16 @@ impl Iterator for Skip {
     type Item = Output;
 
     fn next(&mut self) -> Option<Self::Item> {
-        if self.remaining > 0 {
-            self.iter.nth(take(&mut self.remaining))
-        } else {
-            self.iter.next()
+        while self.remaining > 0 {
+            self.remaining -= 1;
+            match self.iter.next() {
+                // An error thrown while producing a skipped value still has to be reported
+                Some(error @ Output::Error(_)) => return Some(error),
+                Some(_) => {}
+                None => return None,
+            }
         }
+        self.iter.next()
     }
 
     fn size_hint(&self) -> (usize, Option<usize>) {
